@@ -187,6 +187,20 @@ func TestKnown(t *testing.T) {
 				mine = true
 			}
 		}
+		// findings whose guard excluded cases in this run are reported too
+		for _, id := range strings.Split(os.Getenv("VERIF_KNOWN_IDS"), ",") {
+			if id == k.ID {
+				mine = true
+			}
+		}
+		if only := os.Getenv("VERIF_KNOWN_ONLY"); only != "" {
+			mine = false
+			for _, id := range strings.Split(only, ",") {
+				if id == k.ID {
+					mine = true
+				}
+			}
+		}
 		if !mine {
 			continue
 		}
